@@ -198,7 +198,7 @@ func c16Lists(w world) (bases [][]string) {
 		{w.root.Ext()},
 		{ch[0].Ext(), ch[len(ch)-1].Ext()},
 		{ch[0].Ext(), ch[1].Ext(), ch[len(ch)-1].Ext()},
-		ref.Exts(ch), // the complete sibling group
+		ref.Exts(ch),                // the complete sibling group
 		{w.root.Ext(), ch[2].Ext()}, // nested
 		{w.root.Ext(), ref.Vox{H: h + 1, X: w.root.X, Y: w.root.Y, V: v, F: w.root.F}.Ext(), ref.Vox{H: h, X: w.root.X, Y: w.root.Y, V: v + 1, F: w.root.F}.Ext()}, // same numbers at other zooms
 	}
